@@ -2,6 +2,7 @@ import PatVerif.Drive.C19
 import PatVerif.Drive.C04
 import PatVerif.Drive.C20
 import PatVerif.Drive.C09
+import PatVerif.Drive.C05
 /-! Line-protocol driver: one operation per input line, one outcome line per operation,
 computed by the model definitions the theorems are about. -/
 open PatVerif
@@ -15,6 +16,7 @@ def dispatch (line : String) : String :=
       else if op.startsWith "c04." then Drive.C04.handle op args
       else if op.startsWith "c20." then Drive.C20.handle op args
       else if op.startsWith "c09." then Drive.C09.handle op args
+      else if op.startsWith "c05." then Drive.C05.handle op args
       else none
     match r with
     | some s => s
